@@ -48,6 +48,35 @@ def tlc(chk, cfg, out, workers, note, timeout=1500, expect=None):
     return res
 
 
+ACTIONS = {"EvalTarget", "EvalValue", "ReqWrite", "AcqWrite", "Update", "Release", "SplitAcqRead", "SplitRelRead",
+           "AcqRead", "RelRead", "RenderContent", "Unwind", "Terminated"}
+
+
+def vacuity(chk, out):
+    """-coverage: every action of Conc is taken somewhere in the suite, and in the configurations
+    of the specified behaviour exactly the actions of the forbidden alternatives are dead."""
+    live = set()
+    dead_in_spec = set()
+    for cfg in ("cells", "render", "f17_nested_nopref", "split"):
+        res = C.run_tlc("MC_Conc", "MC_Conc_%s.cfg" % cfg, workers=4, timeout=1500, env_extra={"VERIF_OUT": out},
+                        deadlock=True, coverage=True, name="conc_cov_" + cfg)
+        chk.add_tlc("MC_Conc_%s (coverage)" % cfg, res, "vacuity: which actions are taken")
+        seen = {}
+        for m in re.finditer(r"^<(\w+) line \d+[^>]*>: (\d+):(\d+)$", res.out, re.M):
+            seen[m.group(1)] = seen.get(m.group(1), 0) + int(m.group(3))
+        if not (ACTIONS - {"Terminated"}) <= set(seen):
+            raise C.ToolError("coverage output of MC_Conc_%s lists only %s" % (cfg, sorted(seen)))
+        live |= {a for a, n in seen.items() if n > 0}
+        if cfg == "render":
+            dead_in_spec = {a for a in ACTIONS if seen.get(a, 0) == 0}
+    if live & ACTIONS != ACTIONS:
+        raise C.ToolError("vacuity: actions never taken in any configuration: %s" % sorted(ACTIONS - live))
+    if dead_in_spec != {"SplitAcqRead", "SplitRelRead", "Unwind"}:
+        raise C.ToolError("vacuity: dead actions in the render configuration: %s" % sorted(dead_in_spec))
+    chk.cov["vacuity"] = {"actions_live_in_suite": sorted(live & ACTIONS),
+                          "dead_in_specified_behaviour": sorted(dead_in_spec)}
+
+
 def vh_json(args, timeout=1800):
     rc, txt = C.run_vh(["conc"] + [str(a) for a in args], timeout=timeout)
     try:
@@ -88,8 +117,10 @@ def replay_and_force(chk, out, cfg_name, reps, stride, stats):
     stats["outcomes_allowed"] += r["outcomes_allowed"]
     stats["cases_with_several_outcomes"] += r["cases_with_several_outcomes_observed"]
     stats["panics"] += r["panics"]
-    for s in r["samples"][:1]:
-        chk.sample({"kind": "replayed case (spec -> impl)", **s})
+    if not stats["sampled_replay"]:
+        for s in r["samples"][:1]:
+            stats["sampled_replay"] = 1
+            chk.sample({"kind": "replayed case (spec -> impl)", **s})
     if r["deadlock"] is not None:
         report_deadlock(chk, "replay:" + cfg_name, r["deadlock"])
         return False
@@ -100,8 +131,10 @@ def replay_and_force(chk, out, cfg_name, reps, stride, stats):
     if cases and cases[0].get("orders"):
         f = vh_json(["forced", path, stride])
         stats["forced_orders"] += f["runs"]
-        for s in f["samples"][:1]:
-            chk.sample({"kind": "forced serial order (spec -> impl)", **s})
+        if not stats["sampled_forced"]:
+            for s in f["samples"][:1]:
+                stats["sampled_forced"] = 1
+                chk.sample({"kind": "forced serial order (spec -> impl)", **s})
         if f["deadlock"] is not None:
             report_deadlock(chk, "forced:" + cfg_name, f["deadlock"])
             return False
@@ -240,7 +273,7 @@ def run(tier):
     stats = {k: 0 for k in ("cases", "nontrivial_cases", "replay_runs", "forced_orders", "outcomes_observed",
                             "outcomes_allowed", "cases_with_several_outcomes", "panics", "trace_events",
                             "trace_histories_accepted", "lin_histories_accepted", "lin_histories_searched",
-                            "corrupted_traces_rejected")}
+                            "corrupted_traces_rejected", "sampled_replay", "sampled_forced")}
 
     # ---- 1. the specification satisfies the property (and its forbidden alternatives do not)
     emit = []
@@ -265,6 +298,9 @@ def run(tier):
     tlc(chk, "f17_nested", out, 1, "EXPECTED FAILURE: guard held while rendering (pre-df0b31e) deadlocks", expect="deadlock")
     tlc(chk, "f17_nested_nopref", out, w, "guard held while rendering but readers do not wait for queued writers: no deadlock")
     tlc(chk, "split", out, 1, "EXPECTED FAILURE: read and write under separate guards loses an update", expect="invariant")
+
+    if thorough:
+        vacuity(chk, out)
 
     # ---- 2. spec -> impl: every case of the program spaces on real threads, every serial order forced
     alive = True
